@@ -1403,6 +1403,87 @@ theorem tolerance_breaks_selection :
     ∧ timeMask w time = [false, true, true, false, false] := by
   decide +kernel
 
+/-! ## 15d. Files with a regular grid (`Data.Load`, `GeoGrid.RegularGrid`) -/
+
+theorem rectNodes_length (lat lon : Vec) : (rectNodes lat lon).length = lat.length * lon.length := by
+  induction lat with
+  | nil => simp [rectNodes]
+  | cons a l ih =>
+    simp only [rectNodes, List.flatMap_cons, List.length_append, List.length_map] at ih ⊢
+    rw [ih, List.length_cons, Nat.succ_mul]; omega
+
+theorem zip_map_fst_snd {α β : Type} (l : List (α × β)) :
+    (l.map Prod.fst).zip (l.map Prod.snd) = l := by
+  induction l with
+  | nil => rfl
+  | cons p t ih => simp [ih]
+
+/-- the nodes of a loaded regular file are the pairs (latitude, longitude) of the two axes -/
+theorem loadRegular_nodes (time latg long : Vec) (rows : Mat) :
+    (loadRegular time latg long rows).lat.zip (loadRegular time latg long rows).lon
+      = rectNodes latg long := zip_map_fst_snd _
+
+/-- a `(time, lat, lon)` variable reshaped to `(n_time, -1)` matches the grid built from the axes -/
+theorem loadRegular_wf (time latg long : Vec) (rows : Mat) (h1 : rows.length = time.length)
+    (h2 : ∀ r ∈ rows, r.length = latg.length * long.length) :
+    (loadRegular time latg long rows).WF :=
+  ⟨h1, fun r hr => by simp [loadRegular, rectNodes_length, h2 r hr], by simp [loadRegular]⟩
+
+/-- **a rectangular window on a regular grid selects a regular sub-grid**: the nodes inside the
+(non-degenerate) spatial window are exactly the pairs of the latitudes inside the latitude
+bounds with the longitudes inside the longitude bounds, in grid order -/
+theorem regular_window_is_subgrid (w : Win) (latg long : Vec)
+    (h1 : w.latmin ≠ w.latmax) (h2 : w.lonmin ≠ w.lonmax) :
+    (rectNodes latg long).filter (nodeIn w)
+      = rectNodes (latg.filter (inRange w.latmin w.latmax))
+          (long.filter (inRange w.lonmin w.lonmax)) := by
+  have hn : ∀ p, nodeIn w p = (inRange w.latmin w.latmax p.1 && inRange w.lonmin w.lonmax p.2) := by
+    intro p; simp [nodeIn, h1, h2, inBox]
+  induction latg with
+  | nil => simp [rectNodes]
+  | cons a l ih =>
+    simp only [rectNodes, List.flatMap_cons, List.filter_append] at ih ⊢
+    rw [ih]
+    by_cases ha : inRange w.latmin w.latmax a = true
+    · simp only [List.filter_cons, ha, if_true, List.flatMap_cons]
+      congr 1
+      rw [List.filter_map]
+      congr 1
+      apply List.filter_congr
+      intro x _
+      simp [hn, ha]
+    · simp only [List.filter_cons, ha]
+      have : List.filter (nodeIn w) (List.map (fun lo => (a, lo)) long) = [] := by
+        rw [List.filter_eq_nil_iff]
+        intro p hp
+        obtain ⟨lo, _, rfl⟩ := List.mem_map.mp hp
+        simp [hn, ha]
+      rw [this]; simp
+
+/-- object level: a window on a loaded regular file exposes the regular sub-grid, with
+`#lat · #lon` nodes — all theorems about windows, derived series and histories apply to
+loaded data through `loadRegular_wf` -/
+theorem load_window_is_subgrid (time latg long : Vec) (rows : Mat) (w : Win) (v : View)
+    (hwf : (loadRegular time latg long rows).WF)
+    (h : applyWindow (loadRegular time latg long rows) w = some v)
+    (h1 : w.latmin ≠ w.latmax) (h2 : w.lonmin ≠ w.lonmax) :
+    v.lat.zip v.lon = rectNodes (latg.filter (inRange w.latmin w.latmax))
+        (long.filter (inRange w.lonmin w.lonmax))
+    ∧ v.lat.length = (latg.filter (inRange w.latmin w.latmax)).length
+        * (long.filter (inRange w.lonmin w.lonmax)).length := by
+  have hz := (window_selects_exactly _ w v hwf h).2.1
+  rw [loadRegular_nodes, regular_window_is_subgrid w latg long h1 h2] at hz
+  refine ⟨hz, ?_⟩
+  have hv := window_shapes_agree _ w v hwf h
+  have := congrArg List.length hz
+  rw [List.length_zip, rectNodes_length, ← hv.latlon, Nat.min_self] at this
+  exact this
+
+/-- 2 latitudes × 3 longitudes: the window keeps one latitude and two longitudes -/
+example : applyWindow (loadRegular [0, 1] [0, 5] [1, 2, 3] [[1, 2, 3, 4, 5, 6], [7, 8, 9, 10, 11, 12]])
+      ⟨0, 0, 4, 6, 2, 3⟩
+    = some ⟨[0, 1], [5, 5], [2, 3], [[5, 6], [11, 12]]⟩ := by decide +kernel
+
 /-! ## 16. Rescaling: anomalies and phase means are homogeneous, windows follow the time unit -/
 
 /-- **`anomaly()` is homogeneous**: rescaling the observable by any factor `k` (a change of
